@@ -109,11 +109,11 @@ class C05(Check):
         cfg = gen.base_config(start, step, ncfg, [gen.engine_block(1, [sensor], [target])], out_step=out_step,
                               model="two_body", truth_only=True, seed=rng.randrange(1, 2**31))
         return {"config": cfg, "plan": plan, "eop_synth": synth, "eop_span_days": int(total // 86400) + 3,
-                "schedule": {"name": "seeded", "seed": rng.randrange(2**31)}, "job_seed": rng.randrange(2**31)}
+                "schedule": {"name": "seeded", "seed": rng.randrange(2**31)}, "job_seed": rng.randrange(2**31), "tz": gen.draw_tz(rng)}
 
     def sample_view(self, case):
         t = case["config"]["time"]
-        return {"start": t["start_timestamp"], "step": t["physics_step_sec"], "output_step": t["output_step_sec"],
+        return {"machine_time_zone": case.get("tz", "UTC"), "start": t["start_timestamp"], "step": t["physics_step_sec"], "output_step": t["output_step_sec"],
                 "configured_stop": t["stop_timestamp"], "requested_durations_s": [p["seconds"] for p in case["plan"]]}
 
     # -- execution + oracle -------------------------------------------------------------------
